@@ -977,6 +977,9 @@ func (f *fsm) established() (fsmState, error) {
 	}
 
 	to, err := established()
+	// wait for the keepAlive manager, it reads timer state that the next
+	// session is going to replace
+	<-kaManagerDoneCh
 	f.cleanupConnAndReader()
 	f.holdTimer.Stop()
 	f.keepAliveTimer.Stop()
